@@ -596,15 +596,19 @@ int main(int argc, char **argv) {
         }
         dcstate();
       } else if (!strcmp(op, "tcpup")) { /* the SDK reports the requested connection as established */
-        if (sdk_conn_open == 1 && sdk_last_conn && sdk_last_conn->proto.tcp && sdk_last_conn->proto.tcp->connect_callback) {
+        if (sdk_conn_open == 1 && sdk_disc_pending != 2 && sdk_last_conn && sdk_last_conn->proto.tcp && sdk_last_conn->proto.tcp->connect_callback) {
           sdk_conn_open = 2;
           sdk_out("TCPUP");
           sdk_last_conn->proto.tcp->connect_callback(sdk_last_conn);
         } else sdk_out("NOPENDINGCONNECT");
         dcstate();
-      } else if (!strcmp(op, "tcpdown")) { /* the connection is lost / closed by the peer */
-        if (sdk_conn_open == 2 && sdk_last_conn && sdk_last_conn->proto.tcp && sdk_last_conn->proto.tcp->disconnect_callback) {
-          sdk_conn_open = 0;
+      } else if (!strcmp(op, "tcpdown")) { /* the connection is lost / closed by the peer - or the close the firmware asked for is
+                                              reported (the disconnect callback of a local espconn_disconnect comes later, not from
+                                              inside the call) */
+        if ((sdk_conn_open == 2 || (sdk_conn_open != 2 && sdk_disc_pending == 2)) && sdk_last_conn && sdk_last_conn->proto.tcp &&
+            sdk_last_conn->proto.tcp->disconnect_callback) {
+          if (sdk_conn_open == 2) sdk_conn_open = 0;   /* (a connect requested meanwhile stays requested) */
+          sdk_disc_pending = 0;
           sdk_out("TCPDOWN");
           sdk_last_conn->proto.tcp->disconnect_callback(sdk_last_conn);
         } else sdk_out("NOTCONNECTED");
@@ -612,7 +616,8 @@ int main(int argc, char **argv) {
       } else if (!strcmp(op, "recv") && ops_ntok == 2) { /* raw bytes from the server on the open connection */
         long n = ops_hex(ops_tok[1], buf, sizeof(buf));
         if (n < 0) sdk_out("BADOP");
-        else if (sdk_conn_open != 2 || !sdk_last_conn || !sdk_last_conn->recv_callback) sdk_out("NOTCONNECTED");
+        else if (!(sdk_conn_open == 2 || (sdk_conn_open != 2 && sdk_disc_pending == 2)) || !sdk_last_conn || !sdk_last_conn->recv_callback)
+          sdk_out("NOTCONNECTED");   /* (data still arrives on an established connection the firmware has asked to close, until the close is reported) */
         else sdk_last_conn->recv_callback(sdk_last_conn, (char *)buf, (unsigned short)n);
         dcstate();
       } else if (!strcmp(op, "gotip")) { /* what supla_esp_wifi.c reports on a status change to GOT_IP */
